@@ -210,6 +210,7 @@ pub struct Ctx {
 
 thread_local! {
     static LAST_PANIC: RefCell<Option<String>> = const { RefCell::new(None) };
+    static IN_CATCH: Cell<u32> = const { Cell::new(0) };
 }
 
 pub fn install_quiet_panic_hook() {
@@ -222,6 +223,9 @@ pub fn install_quiet_panic_hook() {
         } else {
             "<non-string panic payload>".to_owned()
         };
+        if IN_CATCH.with(Cell::get) == 0 {
+            eprintln!("harness error: panic outside any guarded region: {msg} @ {loc}");
+        }
         LAST_PANIC.with(|p| *p.borrow_mut() = Some(format!("{msg} @ {loc}")));
     }));
 }
@@ -229,7 +233,10 @@ pub fn install_quiet_panic_hook() {
 /// Run `f`, turning a panic into `Err(message @ file:line)`.
 pub fn catch<T>(f: impl FnOnce() -> T) -> Result<T, String> {
     LAST_PANIC.with(|p| *p.borrow_mut() = None);
-    match catch_unwind(AssertUnwindSafe(f)) {
+    IN_CATCH.with(|c| c.set(c.get() + 1));
+    let r = catch_unwind(AssertUnwindSafe(f));
+    IN_CATCH.with(|c| c.set(c.get() - 1));
+    match r {
         Ok(v) => Ok(v),
         Err(_) => Err(LAST_PANIC
             .with(|p| p.borrow_mut().take())
